@@ -2,6 +2,7 @@ package shovel
 
 import (
 	"context"
+	"time"
 
 	"github.com/indexsupply/shovel/dig"
 	"github.com/indexsupply/shovel/jrpc2"
@@ -72,5 +73,144 @@ func ZZ_C20_Restart(budget, ntasks, maxPoints int) {
 	// let whatever is still alive run
 	zzvrf.Yield()
 	zzvrf.Yield()
+	zzvrf.Reach("end")
+}
+
+func zzIG(name, src string) config.Integration {
+	return config.Integration{
+		Name: name, Enabled: true, Sources: []config.Source{{Name: src}},
+		Table: wpg.Table{Name: "t_" + name, Columns: []wpg.Column{{Name: "block_num", Type: "numeric"}}},
+		Block: []dig.BlockData{{Name: "block_num", Column: "block_num"}},
+	}
+}
+
+// ZZ_C20_Sequence: restarts in sequence, under the scheduler, with the
+// database configuration changing between them (what the dashboard does:
+// store, then Restart).
+//   scenario 0: the manager is idle (no enabled integration in the first
+//               generation, its Run has returned); an integration is stored
+//               and a restart requested: the new task must be loaded AND run
+//   scenario 1: a stored integration references an unknown source: Restart
+//               reports the error; the source is then added and a second
+//               restart requested: it must succeed and the tasks must run
+//   scenario 2: two successful restarts in a row while tasks run
+func ZZ_C20_Sequence(scenario, budget, maxPoints, looks int) {
+	zzReset()
+	var conf config.Root
+	conf.Sources = []config.Source{{Name: "s1", ChainID: 1, URLs: []string{"http://n"}, PollDuration: 1}}
+	if scenario != 0 {
+		conf.Integrations = append(conf.Integrations, zzIG("iga", "s1"))
+	}
+	config.ZZDBIntegrations, config.ZZDBSources, config.ZZDBErr = nil, nil, nil
+	jrpc2.ZZHonest(100, 1)
+	jrpc2.ZZSetHead(100)
+	var current []*jrpc2.Client // clients of the generation that should be running
+	callsByCurrent := 0
+	restartReturned := false
+	var previous []*jrpc2.Client
+	jrpc2.ZZOnCall = func(c *jrpc2.Client) {
+		for _, g := range current {
+			if g == c {
+				callsByCurrent++
+			}
+		}
+		old := false
+		for _, g := range previous {
+			if g == c {
+				old = true
+			}
+		}
+		zzvrf.Assert(!(restartReturned && old), "previous-generation-has-stopped-when-restart-returns")
+	}
+	defer func() { jrpc2.ZZOnCall = nil }()
+	clients := func(ts []*Task) []*jrpc2.Client {
+		var out []*jrpc2.Client
+		for _, t := range ts {
+			if c, ok := t.src.(*jrpc2.Client); ok {
+				out = append(out, c)
+			}
+		}
+		return out
+	}
+
+	mgr := NewManager(context.Background(), nil, conf)
+	zzvrf.Scheduled(budget, maxPoints)
+	ec := make(chan error)
+	go mgr.Run(ec)
+	err := <-ec
+	zzvrf.Assert(err == nil, "startup-loads")
+	if err != nil {
+		return
+	}
+	current = clients(mgr.tasks)
+	zzvrf.Yield()
+
+	want := len(conf.Integrations)
+	switch scenario {
+	case 0:
+		config.ZZDBIntegrations = []config.Integration{zzIG("igdb", "s1")}
+		want = 1
+	case 1:
+		config.ZZDBIntegrations = []config.Integration{zzIG("igdb", "s2")}
+		previous = current
+		restartReturned = false
+		rerr := mgr.Restart()
+		restartReturned = true
+		zzvrf.Assert(rerr != nil, "unknown-source-reference-is-an-error")
+		current = nil
+		zzvrf.Yield()
+		// the operator adds the missing source (AddSource stores it, then restarts)
+		config.ZZDBSources = []config.Source{{Name: "s2", ChainID: 2, URLs: []string{"http://n"}, PollDuration: 1}}
+		want = 2
+	case 2:
+		previous = current
+		restartReturned = false
+		rerr := mgr.Restart()
+		restartReturned = true
+		zzvrf.Assert(rerr == nil, "restart-loads")
+		current = clients(mgr.tasks)
+		zzvrf.Yield()
+		config.ZZDBIntegrations = []config.Integration{zzIG("igdb", "s1")}
+		want = 2
+	}
+	previous = append(previous, current...)
+	restartReturned = false
+	var rerr error
+	panicked := false
+	func() {
+		defer func() {
+			if r := recover(); r != nil {
+				panicked = true
+			}
+		}()
+		rerr = mgr.Restart()
+	}()
+	zzvrf.Assert(!panicked, "restart-does-not-panic")
+	if panicked {
+		return
+	}
+	restartReturned = true
+	zzvrf.Assert(rerr == nil, "restart-loads")
+	if rerr != nil {
+		return
+	}
+	zzvrf.Assert(len(mgr.tasks) == want, "one-runner-per-configured-pair-after-restart")
+	current = clients(mgr.tasks)
+	callsByCurrent = 0
+	// let the new generation run for a while (Sleep hands the processor to any
+	// other runnable goroutine). Its tasks have no stop and the source has a
+	// head, so no runner may exit: the generation's Run must still hold the
+	// manager's lock whenever we look.
+	for i := 0; i < looks; i++ {
+		time.Sleep(1)
+		if mgr.running.TryLock() {
+			mgr.running.Unlock()
+			zzvrf.Assert(false, "newly-loaded-tasks-keep-running")
+			return
+		}
+	}
+	if callsByCurrent > 0 {
+		zzvrf.Reach("new-task-asked-the-source")
+	}
 	zzvrf.Reach("end")
 }
